@@ -67,6 +67,11 @@ def shrink(h, clir, sc, driver):
     return L.shrink_lines(sc.src, pred)
 
 
+def regen_parens(h):
+    """coq/gen/ParensTable.v (found by common.regen_all: a full .vo build needs every generated table)"""
+    return L.regen_parens(h)
+
+
 def replay(h, cli, path):
     with open(path) as f:
         rp = json.load(f)
